@@ -104,7 +104,7 @@ PROPS = {
     "C05": {
         "id": "C05",
         "title": "No call corrupts memory or hangs: misuse is reported by exception",
-        "rules": ["G1", "G2", "G3", "G5", "G6", "E1", "A1", "Z1", "Z2", "D2", "G7", "N4", "A2", "Q1", "E2", "Y1", "Q2", "N2", "N8", "M1"],
+        "rules": ["G1", "G2", "G3", "G5", "G6", "E1", "A1", "Z1", "Z2", "D2", "G7", "N4", "A2", "Q1", "E2", "Y1", "Q2", "N2", "N8", "M1", "P2"],
         "clause": "guard completeness (mechanisms 1-3 of the anchors): every plan solve() checks the input length with a live "
                   "check before mixing it with plan tables; every foreign-bound subscript and caller-supplied index in a public "
                   "function is dominated by a live relating guard; slices are range-checked at creation and count-checked at "
@@ -229,7 +229,7 @@ PROPS = {
     "C15": {
         "id": "C15",
         "title": "Prime and power-of-two helpers agree with number theory and terminate",
-        "rules": ["N2", "N2s", "M1", "Q2"],
+        "rules": ["N2", "N2s", "M1", "Q2", "P2"],
         "clause": "no trial-division bound is computed in a type that can wrap for a 32-bit argument (necessary for correctness and "
                   "for termination within sqrt(n) steps above 65521^2); nothing a prime helper keeps between calls carries a cursor from one call into the next (M1); a table search is dereferenced only where a live check keeps the argument inside the table (Q2)",
         "not_decided": "agreement with number theory below the wrap threshold (value-level), nextpow2/ispow2",
